@@ -103,7 +103,12 @@ def detect(sid, checks):
     prop = meta["property"]
     st = sh("git -C /repo status --short | grep -v _build").stdout.strip()
     assert not st, "/repo is not clean: " + st
-    plan = [(c, t) for c in checks for t in ("quick",)] if checks else [(prop, "quick"), (prop, "thorough")] + [(c, "quick") for c in ALL if c != prop]
+    if checks == ["--own"]:
+        prev = sorted({k.split("/")[0] for k, v in meta.get("detection", {}).items() if v["exit"] != 0} | set(meta.get("also", [])))
+        plan = [(prop, "quick"), (prop, "thorough")] + [(c, "quick") for c in prev if c != prop]
+    else:
+        plan = None
+    plan = plan if plan is not None else [(c, t) for c in checks for t in ("quick",)] if checks else [(prop, "quick"), (prop, "thorough")] + [(c, "quick") for c in ALL if c != prop]
     r = sh("git -C /repo apply %s" % os.path.join(dst, "patch.diff"))
     assert r.returncode == 0, r.stdout
     try:
